@@ -412,6 +412,12 @@ class CliFileUtil:
                     out.append({"id": "fu/existing-target/%s-to-%s/%s/%s" % (src, "cas" if src == "dsk" else "dsk", pre,
                                                                              "append" if ap else "noappend"),
                                 "k": "existing", "src": src, "pre": pre, "append": ap})
+            # the complete matrix of the property for file_util.py: every target kind x append x every kind of existing content
+            for dst in ("cas", "dsk", "bin"):
+                for pre in ("empty", "cas", "dsk", "raw", "arbitrary"):
+                    for ap in (False, True):
+                        out.append({"id": "fu/matrix/%s-to-%s/%s/%s" % (src, dst, pre, "append" if ap else "noappend"), "k": "matrix",
+                                    "src": src, "dst": dst, "pre": pre, "append": ap})
         out.append({"id": "fu/missing-host", "k": "missing"})
         return out
 
@@ -549,6 +555,48 @@ class CliFileUtil:
             return
         want = read_image(dst, before) + [(n, ft, la, ea, d) for (n, e, ft, dt, la, ea, d) in files]
         self._same_files(env, got, want, "C16:appended", sig, ("C16", "C10"))
+
+    def k_matrix(self, env, cell, native):
+        """C10 for file_util.py: an existing target changes only when append was requested AND it is an image of the kind written"""
+        src, dst, pre, ap = cell["src"], cell["dst"], cell["pre"], cell["append"]
+        target = "out." + dst
+        before = PRE[pre]() if callable(PRE[pre]) else PRE[pre]
+        host = "host." + src
+        files = FILESETS["one"]
+        r = run_cli(env, "file_util", {"host_filename": host, "to_" + dst: target, "append": ap},
+                    {host: make_image(src, files), target: list(before)})
+        sig = lambda w: (lambda: "fu/matrix/%s-to-%s/%s/%s:%s" % (src, dst, pre, "append" if ap else "noappend", w)) if native else None
+        if not self._gate(env, r, sig):
+            return
+        after = r.fs.get(target)
+        kinds = classify(before)
+        same_kind = (dst == "cas" and ("cas" in kinds or "cas-empty" in kinds)) or (dst == "dsk" and "dsk" in kinds) or \
+                    (dst == "bin" and "bin" in kinds)
+        ambiguous = dst == "cas" and kinds == {"cas-empty", "bin"}          # no tape header at all: empty tape or raw bytes
+        changed = after != before
+        if not ap:
+            env.ensure("C10:unchanged-without-append", not changed, ("C10",), sig("modified-without-append"))
+            env.ensure("C10:told-why", _told(r.stdout), ("C10",), sig("silent-refusal"))
+            return
+        if not same_kind and not ambiguous:
+            env.ensure("C10:unchanged-other-kind", not changed, ("C10",), sig("modified-other-kind:%s" % sorted(kinds)))
+            env.ensure("C10:told-why", _told(r.stdout), ("C10",), sig("silent-refusal"))
+            return
+        if not changed:
+            # append onto content of the same kind may proceed or be refused with a message (raw binaries / empty tapes have no
+            # defined append semantics in the properties)
+            env.ensure("C10:told-why", _told(r.stdout), ("C10",), sig("silent-refusal"))
+            return
+        if dst == "bin" or ambiguous:
+            return
+        try:
+            got = read_image(dst, after)
+        except (tape.TapeFormatError, db.DiskFormatError) as e:
+            import re
+            env.fail("C10:complete-image", ("C10", "C16"), sig("malformed:%s" % re.sub(r"\d+", "N", str(e))))
+            return
+        want = read_image(dst, before) + [(n, ft, la, ea, d) for (n, e, ft, dt, la, ea, d) in files]
+        self._same_files(env, got, want, "C10:complete-image", sig, ("C10", "C16"))
 
     def k_missing(self, env, cell, native):
         r = run_cli(env, "file_util", {"host_filename": "nothere.cas", "to_dsk": "out.dsk"}, {})
